@@ -606,6 +606,73 @@ theorem C10_simple_any_ring (rf : Nat) (tokens : List Entry) (e : Int × List Ho
 example : simpleReplicaMap 2 [(5, ⟨1, 1, 1⟩), (5, ⟨2, 1, 1⟩), (5, ⟨1, 1, 1⟩)]
     = [(5, [⟨1, 1, 1⟩, ⟨2, 1, 1⟩]), (5, [⟨2, 1, 1⟩, ⟨1, 1, 1⟩]), (5, [⟨1, 1, 1⟩, ⟨2, 1, 1⟩])] := by decide
 
+/-! ## a statement of topology.go no input can reach: `return true` in `networkTopology.haveRF` -/
+
+theorem filter_split (d : Nat) : ∀ l : List Host,
+    (l.filter (fun x => decide (x.dc = d))).length + (l.filter (fun x => !decide (x.dc = d))).length = l.length
+  | [] => rfl
+  | x :: r => by
+    have := filter_split d r
+    by_cases hx : x.dc = d <;> simp [hx] <;> omega
+
+theorem sum_filter_le : ∀ (ks : List Nat), ks.Nodup → ∀ (l : List Host),
+    (ks.map (fun d => (l.filter (fun x => decide (x.dc = d))).length)).sum ≤ l.length
+  | [], _, l => by simp
+  | d :: ks, hnd, l => by
+    rw [List.nodup_cons] at hnd
+    have ih := sum_filter_le ks hnd.2 (l.filter (fun x => !decide (x.dc = d)))
+    have hsame : ks.map (fun d' => ((l.filter (fun x => !decide (x.dc = d))).filter (fun x => decide (x.dc = d'))).length)
+        = ks.map (fun d' => (l.filter (fun x => decide (x.dc = d'))).length) := by
+      apply List.map_congr_left
+      intro d' hd'
+      rw [List.filter_filter]
+      congr 1
+      apply List.filter_congr
+      intro x _
+      have hne : d' ≠ d := by intro e; subst e; exact hnd.1 hd'
+      by_cases hx : x.dc = d'
+      · have : ¬ x.dc = d := by intro e; exact hne (hx ▸ e)
+        simp [hx, hne]
+      · simp [hx]
+    rw [hsame] at ih
+    have hsplit := filter_split d l
+    simp only [List.map_cons, List.sum_cons]
+    omega
+
+theorem haveRF_dead (c : NtsCfg) (st : NtsSt) (g : Good c st) (hk : (c.rfs.map (·.1)).Nodup)
+    (htot : c.totalRF = (c.rfs.map (·.2)).sum) (hlt : st.replicas.length < c.totalRF) : haveRF c st = false := by
+  cases h : haveRF c st with
+  | false => rfl
+  | true =>
+    exfalso
+    unfold haveRF at h
+    simp only [Bool.and_eq_true, List.all_eq_true, beq_iff_eq] at h
+    have h2 : c.rfs.map (·.2) = (c.rfs.map (·.1)).map (fun d => (st.replicas.filter (fun x => decide (x.dc = d))).length) := by
+      rw [List.map_map]
+      apply List.map_congr_left
+      intro p hp
+      simp only [Function.comp]
+      rw [g.cnt p.1]
+      exact h.2 p hp
+    have := sum_filter_le (c.rfs.map (·.1)) hk st.replicas
+    rw [← h2] at this
+    omega
+
+/-- `C10_haveRF_never_true`: the loop condition `len(replicas) < totalRF && !n.haveRF(replicasInDC)` evaluates `haveRF`
+only while `len(replicas) < totalRF`; in every state the loop can be in (invariant `Good`, kept by every step:
+`good_walk`) `haveRF` is then false — its final `return true` is unreachable for every ring and every rf map, which is
+why no campaign ever covers that statement (TIECOV: haveRF 5/6). -/
+theorem C10_haveRF_never_true (rfs : List (Nat × Nat)) (tokens : List Entry) (hkeys : (rfs.map (·.1)).Nodup)
+    (st : NtsSt) (g : Good (cfgOf rfs tokens) st) (hlt : st.replicas.length < (cfgOf rfs tokens).totalRF) :
+    haveRF (cfgOf rfs tokens) st = false :=
+  haveRF_dead (cfgOf rfs tokens) st g hkeys rfl hlt
+
+example : Good (cfgOf [(1, 2)] [(0, ⟨1, 1, 1⟩)]) (ntsReplicasAt (cfgOf [(1, 2)] [(0, ⟨1, 1, 1⟩)]) [(0, ⟨1, 1, 1⟩)] 0) ∧
+    (ntsReplicasAt (cfgOf [(1, 2)] [(0, ⟨1, 1, 1⟩)]) [(0, ⟨1, 1, 1⟩)] 0).replicas.length < 2 := by
+  refine ⟨?_, by decide⟩
+  rw [ntsReplicasAt_eq]
+  exact good_walk _ _ _ (good_init _)
+
 /-! ## regression: the inputs of the repaired findings -/
 
 /-- KF-C10-1 input {A:0,5; B:10; C:20}, one rack, rf {dc1:2}: token 0 ↦ [A, B], as Cassandra -/
